@@ -144,6 +144,14 @@ CONSTANTS
 INVARIANTS %s
 CHECK_DEADLOCK FALSE
 """
+DHCP_CFG = """SPECIFICATION Spec
+CONSTANTS
+  Clients = {"c1", "c2", "c3"}
+  Pool = {1, 2, 3, 4, 5}
+  Dups = %d
+INVARIANTS Distinct InPool Learned HeldNotFree
+CHECK_DEADLOCK FALSE
+"""
 IPG_CFG = """SPECIFICATION Spec
 CONSTANTS
   Wd = 3
@@ -195,8 +203,19 @@ def run_c15(tier, seed, out):
     build_harness(("hv-sim",))
     drive_validate(out, "C15", HV_SIM, "ipgen-drive", "TraceIpGen",
                    ["--runs", "600" if tier == "quick" else "8000", "--ops", "45"], tier, seed, "generator histories")
+    log("[C15] model checking Dhcp.tla (concurrent clients, any message order, duplication, release)")
+    model(out, "Dhcp.tla", DHCP_CFG % (1 if tier == "quick" else 2), "dhcp", workers=8, timeout=1500)
+    log("[C15] a real DhcpServer and 1-12 real DhcpClients with reordered / duplicated DHCP frames, validated by TraceDhcp.tla")
+    from vlib import hv_resumable
+    tp = os.path.join(workdir("fn-C15"), "dhcp.ndjson")
+    n = 150 if tier == "quick" else 2500
+    args = ["dhcp-drive", "--seed", str(seed), "--out", tp]
+    hv_resumable(HV_SIM, args, n)
+    chunked_validate(out, "C15", "TraceDhcp", tp, args + ["--runs", str(n)], 60000)
+    log("  %d DHCP scenarios validated" % n)
     out.cov["rule"] = ("64-address pools (ranges, subnets /26../32, subnets minus ends) at bases 0.0.0.0, 255.255.255.192, 10.0.0.0 and random; "
-                       "fetch_ip/fetch_net/return/block; distinct = (pool kind, operation, outcome, fill level) classes")
+                       "fetch_ip/fetch_net/return/block; distinct = (pool kind, operation, outcome, fill level) classes; DHCP: 1-12 clients starting simultaneously, "
+                       "frames delayed 0-9 ms (reordering) and duplicated (0/15/30 %), a third of the clients release their lease")
 
 
 def run(prop, tier, seed, out, replay=None):
